@@ -454,6 +454,24 @@ class C06(PropBase):
             for e in (long_prog, deep, long_tok, long_tok + " 1 +"):
                 addA(w, 5, 0, 16, regs, mb, mh, rng.choice(self.positions(e)))
                 dist["long_inputs"] = dist.get("long_inputs", 0) + 1
+        # malformed rule texts: tokens in front of the first `REG:` label (in the INIT text or in an applicable / not
+        # applicable delta record), labels without an expression, a lone label — "the first token must be a register"
+        lead = ["8", "junk", "+", ".cfa", "$r0", "8 8", "-1 r1", ".undef", "^", "16 .ra"]
+        for pre in lead:
+            for k, (w, regs, mb, mh) in enumerate(self.ENVS[:2]):
+                addA(w, 5, 0, 16, regs, mb, mh, "%s .cfa: 16 .ra: 8" % pre)
+                addA(w, 5, 0, 16, regs, mb, mh, "%s .cfa: 16 .ra: 8 $r3: 7" % pre)
+                addA(w, 5, 0, 16, regs, mb, mh, "\t%s  .cfa: $r0 .ra: .cfa ^" % pre)
+                addA(w, 5, 0, 16, regs, mb, mh, ".cfa: 16 .ra: 8", [(3, "%s $r3: 7" % pre)])
+                addA(w, 5, 0, 16, regs, mb, mh, ".cfa: 16 .ra: 8", [(9, "%s $r3: 7" % pre)])       # not applicable: harmless
+                addA(w, 5, 0, 16, regs, mb, mh, ".cfa: 16 .ra: 8 $r3: 1", [(2, "r4: 2"), (3, "%s .cfa: 24" % pre)])
+                dist["leading_tokens"] = dist.get("leading_tokens", 0) + 6
+        for text in [".cfa:", ".cfa: .ra: 8", ".cfa: 16 .ra:", ".cfa: 16 .ra: 8 $r3:", "$r3: .cfa: 16 .ra: 8", ".cfa: 16 .ra: 8 $r3: r4: 5",
+                     ":", ": 8", ".cfa: 16 .ra: 8 : 5", ".cfa: 16 .ra: 8 $: 5", ".cfa: 16 .ra: 8 r3:: 5", ".cfa: 16 .ra: 8 r3 : 5"]:
+            for (w, regs, mb, mh) in self.ENVS[:2]:
+                addA(w, 5, 0, 16, regs, mb, mh, text)
+                addA(w, 5, 0, 16, regs, mb, mh, ".cfa: 24 .ra: 5 r7: 1", [(4, text)])
+                dist["leading_tokens"] = dist.get("leading_tokens", 0) + 2
         # delta-record sets
         pool = [".cfa: 24", ".cfa: $r0 8 +", ".ra: 5", ".ra: .cfa ^", "$r3: 7", "$r3: .undef", "r3: 9", "r4: r1 $r0 +",
                 "$r3: 1 r4: 2 .ra: 3", "r3: .undef", "$r3: r1", "r3: 4 $r3: .undef", "$r4: .undef", "$r4: 6", "8", "", "$r3:", "$nope: 1", ".cfa: .cfa", "$r5: 18446744073709551616", "r4: .cfa 8 - ^"]
